@@ -9,9 +9,9 @@ import "regexp"
 // length, explicit errorutil.Assert*). Contracts are only written where the argument needs them.
 func init() {
 	registerProp(&PropSpec{ID: "C06", Title: "No ECAL program, sink attribute or event can crash the host process", MinObls: 600,
-		Classes:   regexp.MustCompile(`^(pre|post|inv|dec|assert:|safe:(div0|rem0|hash|ifacecmp|index|slice|assert|assert-type|nilmap|makelen))`),
-		SweepPkgs: map[string]bool{"interpreter": true, "scope": true, "util": true},
-		SweepSkip: regexp.MustCompile(`/interpreter/debug[a-z_]*\.go$`),
+		Classes:     regexp.MustCompile(`^(pre|post|inv|dec|assert:|safe:(div0|rem0|hash|ifacecmp|index|slice|assert|assert-type|nilmap|makelen))`),
+		SweepPkgs:   map[string]bool{"interpreter": true, "scope": true, "util": true},
+		SweepSkip:   regexp.MustCompile(`/interpreter/debug[a-z_]*\.go$`),
 		TrustedBase: []string{"zero-annotation safety obligations: one per instruction that can panic on a bad value (see gvc/enc_instr.go)", "Go semantics of the panicking instructions (spec: run-time panics)"},
 		Assumptions: []string{"the syntax tree is well formed for its node kinds (child counts per node kind: assumed per function as 'tree-well-formed', to be discharged by the parser contracts of C07)",
 			"library functions do not panic on the arguments the runtime gives them"},
